@@ -437,6 +437,7 @@ pub fn corr_opts(ctx: &mut Ctx, directed: bool) {
     large_m_entry_points(ctx);
     long_streams(ctx);
     sha_key_types(ctx);
+    placeholder_member(ctx);
 
     // ---------- edge: weight <= 0 ---------------------------------------------------------------------
     ctx.begin_case("pmh3 weight 0 (hash_item asserts) / pmh3a weight 0 (skipped)");
@@ -470,6 +471,69 @@ pub fn corr_opts(ctx: &mut Ctx, directed: bool) {
     }
 }
 
+
+/// The placeholder given to `new` (e.g. 0 for numeric ids) IS a member of the weighted set - first, in the middle or last in the
+/// stream. Every variant and every entry point (item-wise, hash_wset, IndexMap, HashMap) must still give the signature of the model
+/// (which knows nothing special about the placeholder) and the same signature for every position of the placeholder-valued item.
+pub fn placeholder_member(ctx: &mut Ctx) {
+    for c in 0..ctx.n(12, 120) {
+        let mut rng = ctx.rng.fork();
+        let m = [2usize, 4, 16, 64][c as usize % 4];
+        let n = [2usize, 3, 5, 17][(c as usize / 4) % 4];
+        let init: u64 = if c % 2 == 0 { 0 } else { INIT };
+        let mut ids = gen_ids(&mut rng, n);
+        ids.retain(|x| *x != init);
+        let pos = [0usize, ids.len() / 2, ids.len()][c as usize % 3];
+        ids.insert(pos, init);
+        // the placeholder-valued item is heavy in half of the cases (it should then own most positions)
+        let items: Vec<(u64, f64)> = ids.iter().enumerate().map(|(i, x)| (*x, if *x == init && c % 4 < 2 { 40.0 } else { 0.5 + (i % 5) as f64 })).collect();
+        ctx.begin_case(&format!("pmh placeholder is a member m={} n={} placeholder={} at={}", m, items.len(), init, pos));
+        ctx.mark_nontrivial();
+        ctx.count("placeholder given to new() is a member of the set");
+        let mut imap: IndexMap<u64, f64> = IndexMap::new();
+        let mut hmap: HashMap<u64, f64> = HashMap::new();
+        for (id, w) in &items { imap.insert(*id, *w); hmap.insert(*id, *w); }
+        let its = items.clone();
+        let mut outs: Vec<(&str, Res)> = Vec::new();
+        outs.push(("ProbMinHash3::hash_item", catch(std::panic::AssertUnwindSafe(|| { let mut h = ProbMinHash3::<u64, FnvHasher>::new(m, init); for (x, w) in &its { h.hash_item(*x, w); } (h.get_signature().clone(), h.verif_registers()) }))));
+        ctx.op(&format!("pmh3 new a {} {}", m, init));
+        for (id, w) in &items { ctx.op(&format!("pmh3 item a {}", tok_fnv(*id, *w))); }
+        emit(ctx, "pmh3", "a", &outs[0].1);
+        outs.push(("ProbMinHash3::hash_wset", catch(std::panic::AssertUnwindSafe(|| { let mut h = ProbMinHash3::<u64, FnvHasher>::new(m, init); let mut ws = WSet { items: its.clone(), pos: 0 }; h.hash_wset(&mut ws); (h.get_signature().clone(), h.verif_registers()) }))));
+        outs.push(("ProbMinHash3::hash_weigthed_idxmap", catch(std::panic::AssertUnwindSafe(|| { let mut h = ProbMinHash3::<u64, FnvHasher>::new(m, init); h.hash_weigthed_idxmap(&imap); (h.get_signature().clone(), h.verif_registers()) }))));
+        outs.push(("ProbMinHash3::hash_weigthed_hashmap", catch(std::panic::AssertUnwindSafe(|| { let mut h = ProbMinHash3::<u64, FnvHasher>::new(m, init); h.hash_weigthed_hashmap(&hmap); (h.get_signature().clone(), h.verif_registers()) }))));
+        outs.push(("ProbMinHash3a::hash_weigthed_idxmap", catch(std::panic::AssertUnwindSafe(|| { let mut h = ProbMinHash3a::<u64, FnvHasher>::new(m, init); h.hash_weigthed_idxmap(&imap); (h.get_signature().clone(), h.verif_registers()) }))));
+        outs.push(("ProbMinHash3a::hash_weigthed_hashmap", catch(std::panic::AssertUnwindSafe(|| { let mut h = ProbMinHash3a::<u64, FnvHasher>::new(m, init); h.hash_weigthed_hashmap(&hmap); (h.get_signature().clone(), h.verif_registers()) }))));
+        for (name, r) in outs.iter().skip(1) {
+            let same = match (&outs[0].1, r) { (Ok(a), Ok(b)) => a.0 == b.0 && a.1.iter().map(|x| x.to_bits()).eq(b.1.iter().map(|x| x.to_bits())), _ => false };
+            if !same {
+                ctx.oracle_failure(serde_json::json!({"kind":"impl_violates_property","what":"entry points disagree when the placeholder given to new() is a member of the set","entry":name,"m":m,"placeholder":init,
+                    "items": items.iter().map(|(i,w)| format!("{}:{}",i,w)).collect::<Vec<_>>()}));
+            }
+        }
+        // ProbMinHash3aSha (model computes the digest)
+        let rs = catch(std::panic::AssertUnwindSafe(|| { let mut h = ProbMinHash3aSha::<u64>::new(m, init); h.hash_weigthed_idxmap(&imap); (h.get_signature().clone(), h.verif_registers()) }));
+        ctx.op(&format!("pmh3 new s {} {}", m, init));
+        ctx.op(&format!("pmh3 batch s {}", items.iter().map(|(id, w)| tok_sha(*id, *w)).collect::<Vec<_>>().join(" ")));
+        emit(ctx, "pmh3", "s", &rs);
+        // ProbMinHash2: item-wise (model), hash_wset, HashMap, and the reversed stream
+        let mut outs2: Vec<(&str, Res)> = Vec::new();
+        outs2.push(("ProbMinHash2::hash_item", catch(std::panic::AssertUnwindSafe(|| { let mut h = ProbMinHash2::<u64, FnvHasher>::new(m, init); for (x, w) in &its { h.hash_item(*x, *w); } (h.get_signature().clone(), h.verif_registers()) }))));
+        ctx.op(&format!("pmh2 new a {} {}", m, init));
+        for (id, w) in &items { ctx.op(&format!("pmh2 item a {}", tok_fnv(*id, *w))); }
+        emit(ctx, "pmh2", "a", &outs2[0].1);
+        outs2.push(("ProbMinHash2::hash_wset", catch(std::panic::AssertUnwindSafe(|| { let mut h = ProbMinHash2::<u64, FnvHasher>::new(m, init); let mut ws = WSet { items: its.clone(), pos: 0 }; h.hash_wset(&mut ws); (h.get_signature().clone(), h.verif_registers()) }))));
+        outs2.push(("ProbMinHash2::hash_weigthed_hashmap", catch(std::panic::AssertUnwindSafe(|| { let mut h = ProbMinHash2::<u64, FnvHasher>::new(m, init); h.hash_weigthed_hashmap::<std::collections::hash_map::RandomState>(&hmap); (h.get_signature().clone(), h.verif_registers()) }))));
+        outs2.push(("ProbMinHash2::hash_item (reversed stream)", catch(std::panic::AssertUnwindSafe(|| { let mut h = ProbMinHash2::<u64, FnvHasher>::new(m, init); for (x, w) in its.iter().rev() { h.hash_item(*x, *w); } (h.get_signature().clone(), h.verif_registers()) }))));
+        for (name, r) in outs2.iter().skip(1) {
+            let same = match (&outs2[0].1, r) { (Ok(a), Ok(b)) => a.0 == b.0 && a.1.iter().map(|x| x.to_bits()).eq(b.1.iter().map(|x| x.to_bits())), _ => false };
+            if !same {
+                ctx.oracle_failure(serde_json::json!({"kind":"impl_violates_property","what":"entry points / orders disagree when the placeholder given to new() is a member of the set","entry":name,"m":m,"placeholder":init,
+                    "items": items.iter().map(|(i,w)| format!("{}:{}",i,w)).collect::<Vec<_>>()}));
+            }
+        }
+    }
+}
 
 /// ProbMinHash3aSha over every key type with a byte identity other than u64: Vec<u8>, String, Vec<u16>, Vec<u32>, with byte lengths
 /// 0 .. 130 (in particular exactly 32 = the seed length, 64 = the digest input block boundary / 2, 128 = one SHA-512 block):
